@@ -3,11 +3,12 @@ package serverinterceptors
 // Replay driver for property C04, RPC authentication (overlaid into
 // /repo/rpc/internal/serverinterceptors by /verif/bin/check).
 //
-// Behaviours of spec/AuthRpcGen.tla: a configuration step (strict, store ok/failing, unary or
-// stream) followed by calls.  The real auth.NewAuthenticator runs over a miniredis store
-// (HSET <key> a1 T1; a failing store answers every command with an error) behind the real
-// Unary/StreamAuthorizeInterceptor; the verdict is whether the inner handler ran and whether
-// an error status came back, compared with the specification's admit / reject.
+// Behaviours of spec/AuthRpcGen.tla: a configuration step (strict, unary or stream, initial
+// store) followed by calls and store changes between them ("settoken": HSET / HDEL of app a1,
+// "down": the store answers every command with an error, "up": it works again).  The real
+// auth.NewAuthenticator runs over a miniredis store behind the real Unary/Stream
+// AuthorizeInterceptor; the verdict is whether the inner handler ran and whether an error
+// status came back, compared with the specification's admit / reject / either.
 
 import (
 	"context"
@@ -36,20 +37,21 @@ func runRpcCase(c kit.Case, mr *miniredis.Miniredis) (v kit.Verdict) {
 	v = kit.Verdict{Case: c.Index, OK: true}
 	inf := func(msg string) kit.Verdict { return kit.Verdict{Case: c.Index, Infra: true, Msg: msg} }
 	cfg := c.Steps[0]
-	strict, store, kind := kit.Bool(cfg["strict"]), kit.Str(cfg["store"]), kit.Str(cfg["kind"])
+	strict, kind := kit.Bool(cfg["strict"]), kit.Str(cfg["kind"])
 	// one store process-wide (thousands of listeners would exhaust the ephemeral ports); every
 	// behaviour starts from a flushed store, a fresh redis.Redis (fresh breaker) and a fresh
 	// Authenticator (fresh cache)
+	const hashKey = "c04:apps"
+	const downMsg = "ERR c04 store failure"
 	mr.SetError("")
 	mr.FlushAll()
-	const hashKey = "c04:apps"
-	mr.HSet(hashKey, "a1", "T1")
-	switch store {
-	case "ok":
-	case "failing":
-		mr.SetError("ERR c04 store failure")
-	default:
-		return inf("unknown store class " + store)
+	store := "up"
+	if t := kit.Str(cfg["token"]); t != "" {
+		mr.HSet(hashKey, "a1", t)
+	}
+	if !kit.Bool(cfg["up"]) {
+		mr.SetError(downMsg)
+		store = "down"
 	}
 	a, err := auth.NewAuthenticator(redis.New(mr.Addr()), hashKey, strict)
 	if err != nil {
@@ -57,7 +59,26 @@ func runRpcCase(c kit.Case, mr *miniredis.Miniredis) (v kit.Verdict) {
 	}
 	unary, stream := UnaryAuthorizeInterceptor(a), StreamAuthorizeInterceptor(a)
 	for i, st := range c.Steps[1:] {
-		if kit.Str(st["op"]) != "rpc" {
+		switch kit.Str(st["op"]) {
+		case "rpc":
+		case "settoken":
+			// the environment writes while the store is reachable for it (the error switch only
+			// affects the authenticator's client commands)
+			if t := kit.Str(st["token"]); t == "" {
+				mr.HDel(hashKey, kit.Str(st["app"]))
+			} else {
+				mr.HSet(hashKey, kit.Str(st["app"]), t)
+			}
+			continue
+		case "down":
+			mr.SetError(downMsg)
+			store = "down"
+			continue
+		case "up":
+			mr.SetError("")
+			store = "up"
+			continue
+		default:
 			return inf("unknown step " + kit.Canon(st))
 		}
 		app, tok := kit.Str(st["app"]), kit.Str(st["token"])
@@ -109,8 +130,14 @@ func runRpcCase(c kit.Case, mr *miniredis.Miniredis) (v kit.Verdict) {
 			v.OK, v.Step = false, i+1
 			mode := map[bool]string{true: "strict", false: "lenient"}[strict]
 			v.Key = fmt.Sprintf("C04:rpc:%s:%s:store-%s", what, mode, store)
-			v.Msg = fmt.Sprintf("%s interceptor, strict=%v, store %s, call #%d app=%q token=%q (cache hit per spec: %v): handler ran %d times, err=%v; specification: %s",
-				kind, strict, store, i+1, app, tok, kit.Bool(st["hit"]), ran, gotErr, expect)
+			if now := kit.Str(st["now"]); now != "fail" && now != "none" {
+				v.Key = fmt.Sprintf("C04:rpc:%s:%s:store-has-token", what, mode)
+			}
+			if len(kit.List(st["cached"])) == 0 && i > 0 {
+				v.Key += ":after-earlier-calls"
+			}
+			v.Msg = fmt.Sprintf("%s interceptor, strict=%v, step %d app=%q token=%q; store now: %s, tokens a cache may hold from earlier successful lookups: %s: handler ran %d times, err=%v; specification: %s (history %s)",
+				kind, strict, i+1, app, tok, kit.Str(st["now"]), kit.Canon(st["cached"]), ran, gotErr, expect, kit.Canon(c.Steps[:i+2]))
 			return v
 		}
 	}
